@@ -63,6 +63,7 @@ pub const FINAL_TEMPLATES: &[&str] = &[
 pub const REWRITES: &[&str] = &[
     "move-primary-to-extra", "move-primary-to-build", "move-secondary-to-core", "move-secondary-to-build", "dup-primary", "dup-secondary",
     "swap-major-minor", "unknown-ts", "empty-all", "add-str-build", "dup-context", "patch-before-major", "epoch-in-build", "ts-in-core-ok",
+    "swap-minor-patch", "rotate-primaries", "dup-minor-only", "post-in-core", "dev-in-build", "major-last-in-build",
 ];
 
 fn hostile_none_argv(r: &mut Rng) -> Vec<String> {
@@ -135,7 +136,7 @@ fn hostile_none_argv(r: &mut Rng) -> Vec<String> {
     a
 }
 
-pub fn generate(r: &mut Rng, tier: Tier) -> serde_json::Value {
+pub fn generate(r: &mut Rng, tier: Tier, _group: u64) -> serde_json::Value {
     let kind = *r.pick(&["none", "none", "none", "git", "doc"]);
     let (actors, mut ops, _) = c02::gen_history(r, 4, 10);
     let mut argv = vec![];
@@ -264,6 +265,49 @@ pub fn rewrite(doc: &str, kind: &str) -> Option<String> {
             let b = find_in(&lines, "core", &["var(Patch)"])?;
             lines.swap(a, b);
         }
+        "swap-minor-patch" => {
+            let a = find_in(&lines, "core", &["var(Minor)"])?;
+            let b = find_in(&lines, "core", &["var(Patch)"])?;
+            lines.swap(a, b);
+        }
+        "rotate-primaries" => {
+            // [Major, Minor, Patch] -> [Minor, Patch, Major]
+            let a = find_in(&lines, "core", &["var(Major)"])?;
+            let c = find_in(&lines, "core", &["var(Patch)"])?;
+            if c <= a {
+                return None;
+            }
+            let l = lines.remove(a);
+            lines.insert(c, l);
+        }
+        "dup-minor-only" => {
+            let i = find_in(&lines, "core", &["var(Minor)"])?;
+            let l = lines[i].clone();
+            let (_, e) = section_bounds(&lines, "core")?;
+            lines.insert(e, l);
+        }
+        "post-in-core" => {
+            let (_, e) = section_bounds(&lines, "core")?;
+            if e == 0 {
+                return None;
+            }
+            let at = open_section(&mut lines, "core")?;
+            let _ = e;
+            lines.insert(at, format!("{comp_indent}var(Post),"));
+        }
+        "dev-in-build" => {
+            let at = open_section(&mut lines, "build")?;
+            lines.insert(at, format!("{comp_indent}var(Dev),"));
+        }
+        "major-last-in-build" => {
+            let (s0, e) = section_bounds(&lines, "build")?;
+            if s0 == e {
+                let at = open_section(&mut lines, "build")?;
+                lines.insert(at, format!("{comp_indent}var(Major),"));
+            } else {
+                lines.insert(e, format!("{comp_indent}var(Major),"));
+            }
+        }
         "unknown-ts" => {
             let at = open_section(&mut lines, "build")?;
             lines.insert(at, format!("{comp_indent}var(ts(\"QQ\")),"));
@@ -327,6 +371,7 @@ impl<'a> Pipe<'a> {
             stdin: Stdin::Null,
             path: None,
             rm_cwd: false,
+            stdout: crate::proc::Stdout::Capture,
         };
         stats.bump("producer_processes");
         run_zerv(self.ctx, self.rd, &call, stats)
@@ -344,6 +389,7 @@ impl<'a> Pipe<'a> {
             stdin: Stdin::Pipe { data: data.to_vec(), chunks: self.sc.chunks.clone() },
             path: None,
             rm_cwd: false,
+            stdout: crate::proc::Stdout::Capture,
         };
         stats.bump("consumer_processes");
         run_zerv(self.ctx, self.rd, &call, stats)
